@@ -48,7 +48,7 @@ def driver_explorer(ctx: Ctx, opaque):
         q = roles.fq(f)
         if q in opq or q in lst:
             return False
-        return roles.fq(er) in roles.reach(f)
+        return roles.fq(er) in roles.reach(f) or roles.is_glue(f)
     return ctx.explorer(inline=inl, max_paths=20000)
 
 
